@@ -58,12 +58,19 @@ def run(ctx):
     quick = ctx.quick()
     tables = ["flat", "deep"]
     # ---- design: the repaired design satisfies the property on the complete state graph ...
-    dot = ctx.path("ranking.dot")
-    cfg = "MCRanking_quick.cfg" if quick else "MCRanking_forks.cfg"
-    ctx.tlc_exhaustive("MCRanking", cfg, timeout=1200, dump=dot)
+    # (cfg, list size, replayed?)  quick: linear chain.  thorough: + forks (3 live blocks) exhaustively model-checked for 3 candidates /
+    # list size 2 / votes 0..2 (521k transitions, not replayed: 16 replay processes of that graph do not fit the machine next to other
+    # checks) and replayed for two smaller universes, + every kind of account touch on the chain, + 4 candidates.
+    graphs = [("MCRanking_quick.cfg", 2, True)]
     if not quick:
-        for c in ("MCRanking_wide.cfg", "MCRanking_wide3.cfg"):
-            ctx.tlc_exhaustive("MCRanking", c, timeout=1200)
+        graphs += [("MCRanking_forks.cfg", 2, False), ("MCRanking_wide.cfg", 2, False), ("MCRanking_wide3.cfg", 3, False),
+                   ("MCRanking_forks1.cfg", 2, True), ("MCRanking_forks2.cfg", 1, True), ("MCRanking_touch.cfg", 2, True)]
+    dots = []
+    for cfg, k, rep in graphs:
+        dot = ctx.path(cfg[:-4] + ".dot") if rep else None
+        ctx.tlc_exhaustive("MCRanking", cfg, timeout=1500, dump=dot)
+        if rep:
+            dots.append((cfg[:-4], k, dot))
     # ---- ... and each named deviation alone violates it (negative controls)
     def neg(i):
         time.sleep(0.3 * i)           # distinct metadir names (millisecond clock)
@@ -75,22 +82,17 @@ def run(ctx):
     for k, inv in negs.items():
         if inv != "TopIsFullSort":
             raise Broken("negative control %s: the model with the deviation on should violate TopIsFullSort (got %s)" % (k, inv))
-    # ---- spec -> code: every transition of the state graph on the real store
-    files, summ = ctx.replay("ranking", graph=dot, shards=16, maxlen=60, timeout=1800,
-                             env={"VERIF_RANKING_K": "2", "VERIF_RANKING_TABLE": tables[ctx.seed % 2]})
-    ok = validate_parallel(ctx, files, "state-graph replay", groups=4 if quick else 12)
-    edges = summ["graph_edges"]
-    if not quick:
-        # the linear-chain graph with every kind of account touch (register+unregister inside one block, profile / balance changes)
-        dot2 = ctx.path("ranking_touch.dot")
-        ctx.tlc_exhaustive("MCRanking", "MCRanking_touch.cfg", timeout=1200, dump=dot2)
-        f3, s3 = ctx.replay("ranking", graph=dot2, shards=16, maxlen=60, timeout=1800, name="ranking_touch",
-                            env={"VERIF_RANKING_K": "2", "VERIF_RANKING_TABLE": tables[(ctx.seed + 1) % 2]})
-        ok = validate_parallel(ctx, f3, "state-graph replay (touch)", groups=8) and ok
-        edges += s3["graph_edges"]
+    # ---- spec -> code: every transition of the dumped state graphs on the real store
+    edges, ok = 0, True
+    for i, (name, k, dot) in enumerate(dots):
+        files, summ = ctx.replay("ranking", graph=dot, shards=16, maxlen=60, timeout=1800, name=name,
+                                 env={"VERIF_RANKING_K": str(k), "VERIF_RANKING_TABLE": tables[(ctx.seed + i) % 2]})
+        ok = validate_parallel(ctx, files, "state-graph replay " + name, groups=4 if quick else 8) and ok
+        edges += summ["graph_edges"]
+        if i == 0:
+            ctx.cov["samples"] = summ["samples"]
     ctx.extra["distinct_transitions_replayed"] = edges if ok else 0
     ctx.extra["transitions_in_graph"] = edges
-    ctx.cov["samples"] = summ["samples"]
     ctx.cov["exhaustive"] = True
     # ---- bigger configurations (forks up to 4 live blocks, restart with unconfirmed blocks, 4-5 candidates): simulation
     for cfg, k, num, depth in (("MCRanking_sim.cfg", 2, 30 if quick else 1500, 25), ("MCRanking_sim2.cfg", 3, 0 if quick else 1000, 25)):
@@ -125,8 +127,9 @@ def run(ctx):
     ctx.assumptions += [
         "a registered candidate has at least one vote (deposit votes: params.MinCandidateDeposit >= params.DepositExchangeRate) and an "
         "unregistered candidate can never register again (candidate_vote_tx.go)",
-        "model-checked universe: 3 candidates, list size 2, votes 0..2, up to 3 live blocks (complete reachable graph, no step bound); "
-        "4 candidates / list size 3 on a linear chain; simulation and random histories up to 8 candidates, list size 4, 6 live blocks",
+        "model-checked universe (complete reachable graphs, no step bound): quick 3 candidates / list size 2 / votes 0..2 on a linear chain; "
+        "thorough adds forks (3 live blocks), 4 candidates, list size 3, every kind of account touch; simulation and random histories up to 8 "
+        "candidates, list size 4, 6 live blocks, restarts with unconfirmed blocks",
         "the database is closed quiescent before a restart (crash behaviour is C08)",
         "engine level: TermDuration 4, InterimDuration 1, 3 genesis deputies + 4 further candidates, list size 4, heights 1..5 (the chain stops "
         "before the new term signs); no account both moves balance and votes inside one block (that tally defect is C11's)"]
